@@ -45,6 +45,7 @@ def _run(dump, entry, args, opts):
     if opts.get('budget_s'):
         ctx.deadline = t0 + opts['budget_s']
     I.used = set()
+    IN._UF_MEMO.clear()
     it = IN.Interp(ctx, I)
     st0 = State()
     status, reason = 'ok', ''
